@@ -865,3 +865,86 @@ func isMutableZero(t Term) bool {
 	_, isStruct := z.Type.Underlying().(*types.Struct)
 	return isStruct
 }
+
+// EachBlock calls f for every (non-normalised) block of fn: the body, lambda bodies, branches, match arms and loop bodies.
+func EachBlock(fn *Func, f func(*Block)) {
+	var vb func(b *Block)
+	var vt func(t Term)
+	var vs func(s Stmt)
+	vb = func(b *Block) {
+		if b == nil {
+			return
+		}
+		f(b)
+		for _, s := range b.Stmts {
+			vs(s)
+		}
+		vt(b.Ret)
+	}
+	vt = func(t Term) {
+		if t == nil {
+			return
+		}
+		Walk(t, func(x Term) bool {
+			switch y := x.(type) {
+			case *Lam:
+				vb(y.Body)
+				return false
+			case *If:
+				vt(y.Cond)
+				vb(y.Then)
+				vb(y.Else)
+				return false
+			case *Match:
+				vt(y.Scrut)
+				for _, a := range y.Arms {
+					vb(a.Body)
+				}
+				vb(y.Default)
+				return false
+			case *StrMatch:
+				vt(y.Scrut)
+				for _, a := range y.Arms {
+					for _, v := range a.Vals {
+						vt(v)
+					}
+					vb(a.Body)
+				}
+				vb(y.Default)
+				return false
+			}
+			return true
+		})
+	}
+	vs = func(s Stmt) {
+		switch x := s.(type) {
+		case *Let:
+			vt(x.Val)
+		case *Do:
+			vt(x.X)
+		case *Defer:
+			vt(x.X)
+		case *IfStmt:
+			if x.Init != nil {
+				vs(x.Init)
+			}
+			vt(x.Cond)
+			vb(x.Then)
+			vb(x.Else)
+		case *Assign:
+			vt(x.LHS)
+			vt(x.RHS)
+		case *Loop:
+			if x.Init != nil {
+				vs(x.Init)
+			}
+			vt(x.Cond)
+			if x.Post != nil {
+				vs(x.Post)
+			}
+			vt(x.Over)
+			vb(x.Body)
+		}
+	}
+	vb(fn.Body)
+}
